@@ -674,9 +674,17 @@ class Executor:
             for name, e in mons.items():
                 mon_list.append(("call", name, e))
         mon_before = []
+        mon_before_obj = []
+        mon_before_last = []
         for level, name, e in mon_list:
             o = e.get("output")
             mon_before.append(len(o._it) if o is not None else 0)
+            mon_before_obj.append(o)
+            try:
+                mon_before_last.append((int(o._it[-1]), float(o._time[-1]), float(o._value[-1]))
+                                       if o is not None and len(o._it) else None)
+            except Exception:  # noqa
+                mon_before_last.append(None)
         kwargs = {}
         if stop is not None:
             kwargs["stop"] = stop
@@ -743,13 +751,17 @@ class Executor:
             elif fingerprint(d) != fp:
                 r.mon_foreign.append(label)
         r.mons = []
-        for (level, name, e), nb in zip(mon_list, mon_before):
+        for (level, name, e), nb, o_old, last_old in zip(mon_list, mon_before, mon_before_obj, mon_before_last):
             o = e.get("output")
-            if r.kind == "solve" and level == "call":
-                nb = 0  # solve() discards the previous output of call-level monitors
+            if o is not o_old:
+                nb = 0  # the call started a new output object (solve() does for call-level monitors)
+                last_old = None
+            elif r.kind == "solve" and level == "call" and o is not None and len(o._it) < nb:
+                nb = 0  # ... or emptied the old one
+                last_old = None
             ent = {"level": level, "name": name, "type": e.get("type", name),
                    "frequency": e.get("frequency", DEFAULT_FREQ), "data": e.get("data"),
-                   "before": nb,
+                   "before": nb, "last_before": last_old,
                    "it": list(o._it) if o is not None else [],
                    "time": [float(x) for x in o._time] if o is not None else [],
                    "value": [float(x) for x in o._value] if o is not None else []}
